@@ -196,9 +196,8 @@ class NCCHReader(TypeReaderCryptoBase):
     # because it can have special encryption handling, this is set up beforehand
     _exefs_fp: 'BinaryIO'
 
-    # this lists the ranges of the exefs (start + end) and the keyslot to use
-    # the keyslot should alternate between main and extra for each entry, staring with main (for header)
-    _exefs_crypto_ranges: 'List[Tuple[int, int, int]]'
+    # this lists the ranges of the exefs (start + end) and whether the extra keyslot is used for it
+    _exefs_crypto_ranges: 'List[Tuple[int, int, bool]]'
 
     exefs: 'Optional[ExeFSReader]'
     """The :class:`~.ExeFSReader` of the NCCH, if it has one."""
@@ -409,27 +408,29 @@ class NCCHReader(TypeReaderCryptoBase):
                 # then 0x400 to 0x700 is extra, then 0x700 to 0x800 is original, etc. The list in this case would look
                 # like: [0x200, 0x380, 0x400, 0x700, 0x800]
                 # This is a set to prevent duplicates. It turns into a sorted list after.
-                crypto_changes_set = set()
+                # The byte ranges (relative to the ExeFS start) of every file that uses the extra keyslot.
+                extra_ranges = sorted((info.offset + 0x200, info.offset + info.size + 0x200)
+                                      for name, info in exefs_tmp.entries.items()
+                                      if name not in EXEFS_NORMAL_CRYPTO_FILES and info.size)
+                exefs_size = self.sections[NCCHSection.ExeFS].size
 
-                for name, info in exefs_tmp.entries.items():
-                    if name not in {'icon', 'banner'}:
-                        crypto_changes_set.add(info.offset + 0x200)
-                        crypto_changes_set.add(info.offset + info.size + 0x200)
-                crypto_changes_set.add(self.sections[NCCHSection.ExeFS].end)
-
-                crypto_changes = sorted(crypto_changes_set)
-
-                # This creates a list of start + end ranges, plus the keyslot used to decrypt them.
+                # This creates a list of start + end ranges, plus whether the extra keyslot decrypts them.
                 # In open_raw_section it is used to create multiple SubsectionIO objects based on one of two CTRFileIO
                 # objects, one for the main keyslot and one for extra. Then all of them are merged into one large
                 # file with SplitFileMerger to provide easy access to the full decrypted ExeFS.
                 self._exefs_crypto_ranges = []
                 previous_offset = 0
-                previous_keyslot = self.main_keyslot
-                for offset in crypto_changes:
-                    self._exefs_crypto_ranges.append((previous_offset, offset, previous_keyslot))
-                    previous_offset = offset
-                    previous_keyslot = self.main_keyslot if previous_keyslot is self.extra_keyslot else self.extra_keyslot
+                for start, end in extra_ranges:
+                    start = max(start, previous_offset)
+                    end = min(end, exefs_size)
+                    if end <= start:
+                        continue
+                    if start > previous_offset:
+                        self._exefs_crypto_ranges.append((previous_offset, start, False))
+                    self._exefs_crypto_ranges.append((start, end, True))
+                    previous_offset = end
+                if previous_offset < exefs_size:
+                    self._exefs_crypto_ranges.append((previous_offset, exefs_size, False))
 
             # This will set up either the special ExeFS encryption from above, or a straightforward decryption
             # passthrough if not.
@@ -464,7 +465,7 @@ class NCCHReader(TypeReaderCryptoBase):
                 extra_io = self._open_section_generic(section, encryption=False)
                 extra_io = self._crypto.create_ctr_io(Keyslot.NCCHExtraKey, extra_io, region.iv)
                 for exefs_range in self._exefs_crypto_ranges:
-                    base_file = main_io if exefs_range[2] is self.main_keyslot else extra_io
+                    base_file = extra_io if exefs_range[2] else main_io
                     size = exefs_range[1] - exefs_range[0]
                     files.append((SubsectionIO(base_file, exefs_range[0], size), size))
 
